@@ -101,6 +101,9 @@ func (m gMode) compileOpts() []regexp2.CompileOption {
 }
 func (m gMode) ecma() bool { return m.Opts&syntax.ECMAScript != 0 }
 
+// ordered: capture numbers follow pattern order (parser.go:162)
+func (m gMode) ordered() bool { return m.MCO || m.Opts&(syntax.ECMAScript|syntax.RE2) != 0 }
+
 // spellings of a literal token; none starts with a digit (a back-reference may precede it) and
 // the ones from index gLitNonWord on do not start with a word character.
 var gLits = []string{"a", "b", "c", "x*", "y+?", "é", `\(`, `\)`, "[(]", "[)]", "[^()]", ".", `\b`, `\#`, "[#]", " ", `\ `, "$", "^", `\[`, `[\]()]`, `\\`, `\.`, `\n`, "[(?<n>]", `\(\?<q>`}
@@ -219,7 +222,6 @@ var c17ErrCodes = map[syntax.ErrorCode]int64{
 	syntax.ErrDuplicateGroupName:         20,
 	syntax.ErrCaptureGroupOutOfRange:     21,
 	syntax.ErrMissingRepeatArgument:      22,
-	syntax.ErrUnrecognizedEscape:         23,
 }
 
 func c17ErrCode(err error) int64 {
@@ -235,7 +237,7 @@ func c17ErrCode(err error) int64 {
 // ---------- generator: wild token lists ----------
 
 var gNamePool = []string{"n", "x", "y1", "_z", "N", "ab", "a", "k", "long_name_7", "é"}
-var gNumPool = []int64{1, 2, 3, 5, 7, 10, 12, 99, 2, 3, 1}
+var gNumPool = []int64{1, 2, 3, 5, 7, 10, 12, 77, 2, 3, 1} // no multi-digit number starting with 8 or 9: "\\99" is no octal escape
 
 type gGen struct {
 	r        *Rng
@@ -247,6 +249,8 @@ type gGen struct {
 	hasOptX  bool
 	hasDup   bool
 	nameSeen map[string]bool
+	// the group being generated sits directly inside an alternation construct
+	parentCond bool
 }
 
 func (g *gGen) pickName() string {
@@ -275,6 +279,9 @@ func (g *gGen) pickNum() int64 {
 func (g *gGen) refNum() int64 {
 	if len(g.nums) > 0 && g.r.Chance(50) {
 		return Pick(g.r, g.nums)
+	}
+	if g.r.Chance(75) {
+		return 1
 	}
 	return int64(1 + g.r.Intn(4))
 }
@@ -336,11 +343,16 @@ func (g *gGen) seqB(depth, budget int, inCond, noBar bool) []gTok {
 				out = append(out, gTok{Tag: tLit, N: gLitBar})
 			}
 		case k < 76 && depth < 4:
+			g.parentCond = inCond
 			out = append(out, g.group(depth)...)
 		case k < 84:
-			out = append(out, gTok{Tag: tOptSet, Cs: g.optChars(), Sp: g.r.Intn(256)})
+			if inCond && !g.r.Chance(10) {
+				out = append(out, g.lit(false)) // the real parser rejects option constructs directly inside (?( ) ... )
+			} else {
+				out = append(out, gTok{Tag: tOptSet, Cs: g.optChars(), Sp: g.r.Intn(256)})
+			}
 		case k < 88:
-			if g.r.Bool() {
+			if g.r.Bool() || (len(g.names) == 0 && !g.r.Chance(10)) {
 				out = append(out, gTok{Tag: tBackNum, N: g.refNum(), Angled: g.r.Bool(), Sp: g.r.Intn(8)})
 			} else {
 				out = append(out, gTok{Tag: tBackName, S: g.refName(), Sp: g.r.Intn(10)})
@@ -351,7 +363,7 @@ func (g *gGen) seqB(depth, budget int, inCond, noBar bool) []gTok {
 			// "#" ... "\n": a comment when x is on, pattern text otherwise
 			g.hasHash = true
 			out = append(out, gTok{Tag: tHash})
-			if g.r.Chance(60) {
+			if g.r.Chance(80) {
 				out = append(out, g.seqB(depth+1, 2, false, inCond)...) // balanced: valid either way
 			} else {
 				out = append(out, Pick(g.r, [][]gTok{{{Tag: tOpen}}, {{Tag: tClose}}, {{Tag: tNamed, S: "hq"}}, {{Tag: tNumbered, N: 9}}, {{Tag: tLit, N: 0}}})...)
@@ -377,7 +389,11 @@ func (g *gGen) group(depth int) []gTok {
 	case k < 72:
 		open = []gTok{{Tag: tGroup, N: int64(g.r.Intn(6))}}
 	case k < 84:
-		open = []gTok{{Tag: tOptGroup, Cs: g.optChars(), Sp: g.r.Intn(256)}}
+		if g.parentCond && !g.r.Chance(10) {
+			open = []gTok{{Tag: tGroup, N: 0}}
+		} else {
+			open = []gTok{{Tag: tOptGroup, Cs: g.optChars(), Sp: g.r.Intn(256)}}
+		}
 	case k < 92:
 		// expression condition: "(?" + condition group + ")" ...
 		g.hasCond = true
@@ -416,7 +432,7 @@ func (g *gGen) group(depth int) []gTok {
 func (g *gGen) wild() []gTok {
 	ts := g.seq(0, 5, false)
 	// small damage: unbalanced / misplaced tokens
-	if g.r.Chance(10) && len(ts) > 0 {
+	if g.r.Chance(6) && len(ts) > 0 {
 		i := g.r.Intn(len(ts))
 		switch g.r.Intn(3) {
 		case 0:
@@ -772,7 +788,7 @@ func c17Cross(re *regexp2.Regexp, mt *regexp2.Match, ecma bool) string {
 }
 
 func c17Keys(r *Rng, ts []gTok) (numKeys []int64, nameKeys, dollarKeys []string) {
-	numKeys = []int64{-1, 0, 1, 2, 3, 4, 5, 6, 7, 10, 11, 12, 13, 99, 100, 2147483647}
+	numKeys = []int64{-1, 0, 1, 2, 3, 4, 5, 6, 7, 10, 11, 12, 13, 77, 78, 99, 2147483647}
 	nameKeys = []string{"", "0", "1", "2", "3", "5", "01", "00", "12", "99", "2147483647", "18446744073709551616", "18446744073709551617",
 		"4294967297", "-1", "+1", " 1", "1 ", "n", "N", "zz", "g2", "é", "n\x00", "１"}
 	for _, t := range ts {
@@ -810,7 +826,7 @@ func c17ModelIn(m gMode, ts []gTok, numKeys []int64, nameKeys, dollarKeys []stri
 const c17GuardMCO = "mco_digit_names"
 
 func c17Guard(m gMode, ts []gTok) string {
-	if m.MCO && !m.ecma() && hasTag(ts, tNumbered) {
+	if m.ordered() && !m.ecma() && hasTag(ts, tNumbered) {
 		return c17GuardMCO
 	}
 	return ""
@@ -886,7 +902,7 @@ func legC17Maps(c *Ctx) {
 		}
 		for _, m := range gModes {
 			ts := base
-			if (m.MCO || m.ecma()) && hasTag(ts, tNumbered) && c.Rng.Chance(85) {
+			if m.ordered() && hasTag(ts, tNumbered) && c.Rng.Chance(85) {
 				ts = dropNumbered(c.Rng, ts)
 			}
 			impl, _ := c17Emit(c, "wild", ts, m, []string{"", "abc", "aabbcc()#\n", "x"}, 2)
@@ -1025,7 +1041,7 @@ func legC17Direct(c *Ctx) {
 		input := string(in)
 		for _, m := range gModes {
 			ts := base
-			if (m.MCO || m.ecma()) && hasTag(ts, tNumbered) && c.Rng.Chance(85) {
+			if m.ordered() && hasTag(ts, tNumbered) && c.Rng.Chance(85) {
 				ts = dropNumbered(c.Rng, ts)
 			}
 			anch := append([]gTok{{Tag: tLit, N: 2000 + '^'}}, ts...)
